@@ -195,6 +195,8 @@ def gen_random(rng, prof=None):
             absence = sorted(set(absence) | {a0, a0 + 1})  # consecutive steps
         if rng.random() < 0.2:
             absence = sorted(set(absence) | {0})
+    if len(absence) >= 2 and rng.random() < 0.25:
+        rng.shuffle(absence)              # the user's list need not be sorted
     sim = dict(rule=rng.randrange(0, 9), absence=absence, auto_flag=rng.random() < 0.5,
                max_time=p["max_time"])
     return dict(tasks=tasks, comps=comps, wps=wps, teams=teams, sim=sim, task_order=task_order)
